@@ -41,13 +41,13 @@ fn fold_int(nrows: usize) {
     }
 }
 
-// @vt prop=C16 tier=quick bound="COUNT(*) / SUM / AVG / MIN / MAX over an integer column of 0..=3 rows, each NULL or any i64 (exact sum within i64)" outside="more than 3 rows; float and mixed columns (c16_fold_float); the grouping hash table and HAVING" timeout=900
+// @vt prop=C16 tier=quick bound="COUNT(*) / SUM / AVG / MIN / MAX over an integer column of 0..=3 rows, each NULL or any i64 (exact sum within i64)" outside="more than 3 rows; float and mixed columns (c16_fold_float); the grouping hash table and HAVING" timeout=1800
 vt_proof! { unwind = 5; fn c16_fold_int() {
     let n: usize = kani::any(); kani::assume(n <= 3);
     if n == 0 { fold_int(0) } else if n == 1 { fold_int(1) } else if n == 2 { fold_int(2) } else { fold_int(3) }
 }}
 
-// @vt prop=C16 tier=quick bound="SUM / AVG over two arbitrary i64 values whose exact sum does not fit i64" outside="longer inputs" timeout=600
+// @vt prop=C16 tier=quick bound="SUM / AVG over two arbitrary i64 values whose exact sum does not fit i64" outside="longer inputs" timeout=1800
 vt_proof! { unwind = 4; fn c16_sum_overflow() {
     let a: i64 = kani::any(); let b: i64 = kani::any();
     let exact = a as i128 + b as i128;
@@ -62,7 +62,7 @@ vt_proof! { unwind = 4; fn c16_sum_overflow() {
     assert!(!matches!(out, Value::Int(s) if s as i128 != exact), "role=sum_overflow_is_not_a_wrapped_value");
 }}
 
-// @vt prop=C16 tier=quick bound="SUM / AVG / MIN / MAX over a float column of 0..=2 rows, each NULL or a finite f64 of magnitude < 2^40 with at most 12 fractional bits (every partial sum exact)" outside="floats whose sums round; NaN/inf; more than 2 rows" timeout=900
+// @vt prop=C16 tier=quick bound="SUM / AVG / MIN / MAX over a float column of 0..=2 rows, each NULL or a finite f64 of magnitude < 2^40 with at most 12 fractional bits (every partial sum exact)" outside="floats whose sums round; NaN/inf; more than 2 rows" timeout=1800
 vt_proof! { unwind = 4; fn c16_fold_float() {
     let raw: [i64; 2] = kani::any(); let nulls: [bool; 2] = kani::any();
     kani::assume(raw[0] > -(1i64 << 52) && raw[0] < (1i64 << 52) && raw[1] > -(1i64 << 52) && raw[1] < (1i64 << 52));
@@ -118,7 +118,7 @@ macro_rules! all_masks { ($zero:expr) => {{
     else if m == 14 { let (a, b) = masked(14, $zero); group_key_case(a, b) } else { let (a, b) = masked(15, $zero); group_key_case(a, b) }
 }}; }
 
-// @vt prop=C16 tier=quick bound="GROUP BY on two integer columns: all pairs of rows whose grouping values are NULL or 0 (all 16 NULL patterns)" outside="other integers in the quick tier (thorough: every i64)" timeout=900
+// @vt prop=C16 tier=quick bound="GROUP BY on two integer columns: all pairs of rows whose grouping values are NULL or 0 (all 16 NULL patterns)" outside="other integers in the quick tier (thorough: every i64)" timeout=1800
 vt_proof! { unwind = 6; fn c16_group_key_null_positions() { all_masks!(true) }}
 
 // @vt prop=C16 tier=thorough bound="GROUP BY on two integer columns: ALL pairs of rows (each grouping value NULL or any i64, all 16 NULL patterns)" outside="more than two grouping columns; text keys (key injectivity per type: C26)" timeout=3600 mem=24
